@@ -257,7 +257,7 @@ def lift_body(text, name):
   return "\n".join(lines[:start] + out + lines[end + 1 :])
 
 
-def outline_branch(text, defname, newname, cond_prefix):
+def outline_branch(text, defname, newname, cond_prefix, rettype="(list (write S))"):
   """Move the `then` branch of the `if <cond_prefix>..` of definition `defname` into its own
   definition `newname` with the same parameters (all variables in scope are parameters of
   `defname`).  Used for the geom-distance search of `_sensor_pos` (nested loops): keeping it
@@ -276,7 +276,7 @@ def outline_branch(text, defname, newname, cond_prefix):
   j = next(k for k in range(i + 1, end) if lines[k] == " " * ind + "else")
   branch = [l[ind:] if l.startswith(" " * ind) else l for l in lines[i + 1 : j]]
   # a branch that used a local of the enclosing definition does not compile (fail closed)
-  new =[f"Definition {newname} {params} : (list (write S)) :="] + branch
+  new = [f"Definition {newname} {params} : {rettype} :="] + branch
   new[-1] = new[-1] + "."
   call = " " * (ind + 2) + f"({newname} {' '.join(pnames)})"
   return "\n".join(lines[:start] + new + [""] + lines[start : i + 1] + [call] + lines[j:])
@@ -355,7 +355,8 @@ def _make(tag, kernels, outfile):
       text = split_geom(text, "k__sensor_pos_geom")
     if "_sensor_acc" in kernels and "_sensor_acc" in tr.kernels:
       # the contact-sensor branch out of line: coqc needs ~30 s instead of ~150 s for the file
-      text = outline_branch(text, "k__sensor_acc_body", "k__sensor_acc_contact", "(Z.eqb sensortype (42)%Z)")
+      # (the branch yields the pair (contact_forcetorque, writes__): the local is threaded through the if-chain)
+      text = outline_branch(text, "k__sensor_acc_body", "k__sensor_acc_contact", "(Z.eqb sensortype (42)%Z)", "((list S) * (list (write S)))")
     vlib.write_if_changed(os.path.join(vlib.COQ, "Gen", outfile), text)
     _cache[tag] = tr
     return tr
